@@ -129,7 +129,7 @@ func (e *Engine) havocMap(st *State, mt *types.Map, m Term) {
 }
 
 func (e *Engine) execLookup(st *State, fr *Frame, x *ssa.Lookup) {
-	switch xt := x.X.Type().Underlying().(type) {
+	switch xt := under(x.X.Type()).(type) {
 	case *types.Map:
 		m := e.get(st, fr, x.X).(Term)
 		v, ok := e.mapLookup(st, xt, m, e.get(st, fr, x.Index))
@@ -162,7 +162,7 @@ type VIter struct {
 }
 
 func (e *Engine) execRange(st *State, fr *Frame, x *ssa.Range) {
-	mt, ok := x.X.Type().Underlying().(*types.Map)
+	mt, ok := under(x.X.Type()).(*types.Map)
 	if !ok {
 		panic(unsupported("range over " + x.X.Type().String()))
 	}
@@ -253,7 +253,7 @@ func (e *Engine) ctxDone(ctx Value) Term {
 
 func (e *Engine) execRecv(st *State, fr *Frame, x *ssa.UnOp) {
 	ch := e.get(st, fr, x.X).(Term)
-	et := x.X.Type().Underlying().(*types.Chan).Elem()
+	et := under(x.X.Type()).(*types.Chan).Elem()
 	e.note("channel receive: the received value is unconstrained (channel contents are not modelled)")
 	v := e.freshTyped(st, et, "recv")
 	if x.CommaOk {
